@@ -887,4 +887,67 @@ theorem askPermission_error {fs fs' : FS} {a : Args} {d : Path} {e : Err} (h : a
       · simp at h
     · exact ⟨(congrArg Prod.fst h).symm, hacc'⟩
 
+/-! ### more than one receive with the same `args` object -/
+
+theorem receive_args (a : Args) (fs : FS) (s : Step) : (receive a fs s).1 = a := by
+  unfold receive
+  cases s.offer <;> rfl
+
+theorem recvStep_args (st : Args × FS × List (Except Err Path)) (s : Step) : (recvStep st s).1 = st.1 :=
+  receive_args st.1 st.2.1 s
+
+theorem foldl_recvStep_args : ∀ (steps : List Step) (st : Args × FS × List (Except Err Path)),
+    (steps.foldl recvStep st).1 = st.1
+  | [], _ => rfl
+  | s :: rest, st => by
+    rw [List.foldl_cons, foldl_recvStep_args rest, recvStep_args]
+
+theorem receives_snoc (a : Args) (fs : FS) (hist : List Step) (s : Step) :
+    receives a fs (hist ++ [s]) = recvStep (receives a fs hist) s := by
+  simp [receives, List.foldl_append]
+
+theorem isRealDir_exists {fs : FS} {p : Path} (h : fs.isRealDir p = true) : fs.pathExists p = true := by
+  unfold FS.isRealDir at h
+  have hk : fs.kind p = some .dir := by simpa using h
+  simp [FS.pathExists, hk]
+
+/-- a file offer that ends well went through `_handle_file` with that destination -/
+theorem offerFile_ok {fs : FS} {a : Args} {n d : Path} {dr : Bool} (h : (offerFile fs a n dr).2 = .ok d) :
+    ∃ fs1 t, handleFile fs a n = (fs1, .ok (d, t)) := by
+  unfold offerFile at h
+  cases hh : handleFile fs a n with
+  | mk fs1 r1 =>
+    rw [hh] at h
+    cases r1 with
+    | error e => simp at h
+    | ok dt =>
+      obtain ⟨d', t⟩ := dt
+      simp only at h
+      split at h
+      · simp at h
+      · cases hw : writeFile fs1 d' t with
+        | mk fs2 r2 =>
+          rw [hw] at h
+          cases r2 with
+          | error e => simp at h
+          | ok u =>
+            simp only [Except.ok.injEq] at h
+            exact ⟨fs1, t, by rw [h]⟩
+
+/-- a directory offer that ends well went through `_handle_directory` with that destination -/
+theorem offerDirectory_ok {fs : FS} {a : Args} {m n d : Path} {dr ex : Bool}
+    (h : (offerDirectory fs a m n dr ex).2 = .ok d) : ∃ fs1, handleDirectory fs a m n = (fs1, .ok d) := by
+  unfold offerDirectory at h
+  cases hh : handleDirectory fs a m n with
+  | mk fs1 r1 =>
+    rw [hh] at h
+    cases r1 with
+    | error e => simp at h
+    | ok d' =>
+      simp only at h
+      split at h
+      · simp at h
+      · simp only [Except.ok.injEq] at h
+        exact ⟨fs1, by rw [h]⟩
+
 end WV.C05
